@@ -45,6 +45,9 @@ pub enum Step {
     /// land on the end instant of the current state's timeline, displaced by `off` grid units
     /// (falls back to one grid unit when there is no finite end ahead)
     ToEnd { off: i8 },
+    /// land on the end instant displaced by whole cycles of the state's first component (for very
+    /// long animations only whole cycles are still representable next to the end)
+    ToEndCycles { cycles: i8 },
 }
 
 #[derive(Clone, Copy, Debug, PartialEq, Serialize, Deserialize)]
